@@ -84,6 +84,9 @@ pub fn run(ctx: &Ctx) -> Report {
     rep.floor("byte_identical_retransmissions", 300);
     rep.floor("handshake_retransmissions_forced", 100);
     rep.floor("snapshots_checked", 500);
+    rep.floor("family:mrp", 200);
+    rep.floor("family:case", 200);
+    rep.floor("family:admin", 200);
 
     let shard_seed = ctx.shard_seed();
     let replay_idx = ctx.replay.as_ref().map(|r| {
